@@ -27,15 +27,21 @@ def canonical_reverse(name):
         return None
     if s.endswith(".in-addr.arpa."):
         ls = s[:-len(".in-addr.arpa.")].split(".")
-        if len(ls) != 4:
+        # a name BELOW a full reverse name (e.g. the DNS-SD browse names lb._dns-sd._udp.0.1.168.192.in-addr.arpa.)
+        # belongs to the same address: the labels closest to the suffix decide
+        if len(ls) < 4 or any(l == "" for l in ls):
             return None
+        ls = ls[-4:]
         for l in ls:
             if not l.isdigit() or not l.isascii() or (len(l) > 1 and l[0] == "0") or int(l) > 255:
                 return None
         return ipaddress.IPv4Address(bytes(int(l) for l in reversed(ls)))
     if s.endswith(".ip6.arpa."):
         ls = s[:-len(".ip6.arpa.")].split(".")
-        if len(ls) != 32 or any(len(l) != 1 or l not in "0123456789abcdef" for l in ls):
+        if len(ls) < 32 or any(l == "" for l in ls):
+            return None
+        ls = ls[-32:]
+        if any(len(l) != 1 or l not in "0123456789abcdef" for l in ls):
             return None
         return ipaddress.IPv6Address(bytes.fromhex("".join(reversed(ls))))
     return None
